@@ -148,6 +148,7 @@ CONTRACTS[(V, 'ManagerV.new_block')] = {
     'params': {'self': 'obj:ManagerV', 'ranges': 'tuple:int', 'label': 'optstr'},
     'requires': ['self._formula._numvar >= 0'],
     'raises': {'ValueError': None},
+    'modifies': ['self._groups', 'self._formula._numvar'],
     'returns': 'obj:BlockOfVariables',
     'variants': {'dim1': {}, 'dim2': {'params': {'ranges': 'tuple:int,int'}}},
     'ensures': ['result.ids_lo == old(self._formula._numvar) + 1', 'result.ids_hi == result.ids_lo + result.N', 'result.N >= 0',
@@ -180,6 +181,7 @@ CONTRACTS.update({
         'params': {'self': 'obj:ManagerV', 'label': 'any'},
         'calls_model': {'SingletonVariableGroup': 'SingleVar'},
         'requires': ['self._formula._numvar >= 0'], 'raises': {}, 'returns': 'int',
+        'modifies': ['self._groups', 'self._formula._numvar'],
         # the new variable is exactly the next identifier; registered once, last
         'ensures': ['result == old(self._formula._numvar) + 1', 'self._formula._numvar == result',
                     'ocount(self._groups) == ocount(old(self._groups)) + 1'],
